@@ -117,3 +117,11 @@ func exists(lo, hi int, f func(int) bool) bool {
 //@     invariant forall(0, len(assignments[toIdx]), func(k int) bool { return 0 <= assignments[toIdx][k] && assignments[toIdx][k] < idx_ && to[toIdx].Overlaps(from[assignments[toIdx][k]]) })
 //@     invariant forall(0, idx_, func(j int) bool { return to[toIdx].Overlaps(from[j]) ==> exists(0, len(assignments[toIdx]), func(k int) bool { return assignments[toIdx][k] == j }) })
 //@     invariant forall(0, len(assignments[toIdx]), func(k int) bool { return forall(0, k, func(m int) bool { return assignments[toIdx][m] < assignments[toIdx][k] }) })
+
+// Two ranges that contain the same key group overlap: so the new operator owning
+// a key group receives (AssignRanges) every old checkpoint whose range held it.
+//@ lemma overlapIfShareGroup
+//@   property C06
+//@   forall r1 KeyGroupRange, r2 KeyGroupRange, g int
+//@   requires r1.Start <= g && g < r1.End && r2.Start <= g && g < r2.End
+//@   ensures r1.Overlaps(r2)
